@@ -34,11 +34,16 @@ def make_data(case):
     def stack(cnt):
         S = rs.randn(n, n, cnt)
         S = S + np.transpose(S, (1, 0, 2))
-        for s in range(cnt):
-            np.fill_diagonal(S[:, :, s], 0)
+        if not case.get('diag'):
+            for s in range(cnt):
+                np.fill_diagonal(S[:, :, s], 0)
         return S
     x, y = stack(nx), stack(ny)
     eff = case['effect']
+    if case.get('diag'):
+        # self-connections that differ between the groups more than any connection does: they are not connections
+        for i in (0, 2, n - 1):
+            x[i, i, :] += 6.0
     if eff:
         edges = case['edges']
         for (i, j, sgn) in edges:
@@ -97,6 +102,10 @@ def cases(tier, seed):
                          'thr': float(rs.choice([1.0, 1.5, 2.0, 3.0])) if rep % 4 else float(rs.choice([1.6, 1.9, 2.2])), 'rs': seed * 100 + rep,
                          'const': (n - 1, 0) if rep % 2 == 0 else None, 'const_same': bool(rs.rand() < .5),
                          'scales': (rep + nx) % 3 == 0}
+                    if rep % 3 == 2:
+                        c['diag'] = True
+                    if rep % 8 == 5 and not paired:
+                        c['thr'] = -0.5           # every connection is suprathreshold, zero-variance ones included
                     out.append(c)
                     if rep % 4 == 1:
                         out.append(dict(c, counts=True, scales=False, const=None, thr=1.0, k=10))
